@@ -291,6 +291,49 @@ def case(part, item):
         bad(f'exception:{type(e).__name__}', str(e)[:300])
 
 
+def overflow_case(part, item):
+    """float16 parameters whose clip inner product overflows to +inf and
+    -inf: finite inputs must still give finite registered gradients."""
+    import torch as _t
+    from vf import kfacrun as K
+
+    model, mult, rho, method, prediv = item
+    cfg = {'model': model, 'dtype': 'f16', 'batch': 3, 'world': 1, 'seed': 0,
+           'kfac': dict(damping=0.001, factor_decay=0.5, kl_clip=1e-3, lr=0.1,
+                        factor_dtype='f32', factor_update_steps=10,
+                        inv_update_steps=1, compute_method=method,
+                        compute_eigenvalue_outer_product=prediv),
+           'sgd_lr': 0.0, 'loss_mult': mult,
+           'history': [['train'], ['setcorr', rho], ['train'], ['train']]}
+    name = f'overflow/{model}/f16/mult={mult}/rho={rho}/{method}/{prediv}'
+    part.count('evaluations')
+    try:
+        rec, _ = K.run_single(cfg)
+    except Exception as e:  # noqa
+        part.violation(f'exception:{type(e).__name__}:f16', f'{name}: {e}',
+                       {'overflow': list(item)})
+        return
+    for t, ev in enumerate(rec):
+        if ev['op'][0] != 'train':
+            continue
+        if not all(_t.isfinite(g).all() for g in ev['D'].values()):
+            return  # inputs not finite: outside the statement
+        prods = [(ev['P'][pn].float() * ev['D'][pn].float()) for pn in ev['P']]
+        if any((p.abs() > 65504).any() for p in prods):
+            part.seen('nontrivial', name)
+        for pn, g in ev['P'].items():
+            if not _t.isfinite(g).all():
+                part.violation(
+                    'nonfinite:f16', f'{name} op {t}: gradient of {pn} is '
+                    'not finite although every input of step() was',
+                    {'overflow': list(item)})
+                return
+            if ev['meta_after'][pn] != ev['meta_before'][pn]:
+                part.violation('grad-meta:f16', f'{name} op {t}: {pn}',
+                               {'overflow': list(item)})
+                return
+
+
 def main(run: core.Run):
     thorough = run.tier == 'thorough'
     maxl = 3
@@ -299,7 +342,7 @@ def main(run: core.Run):
     for n in range(1, maxl + 1):
         progs += list(itertools.combinations_with_replacement(LEAVES, n))
     methods = [('eigen', True), ('eigen', False), ('inverse', False)]
-    dts = [('f32', 'f32', None), ('f64', 'f32', None)]
+    dts = [('f32', 'f32', None), ('f64', 'f32', None), ('f32', 'f32', 'f32')]
     if thorough:
         dts += [('f64', 'f64', 'f64'), ('f32', 'f64', 'f64'),
                 ('bf16', 'f32', None)]
@@ -321,6 +364,11 @@ def main(run: core.Run):
                         items.append((kinds, dname, (m, p), idt, fdt, h,
                                       run.seed, kl, ha))
     core.pmap(run, case, items)
+    ov = [(m, mult, rho, meth, pre) for m in ('lin1', 'mlp2')
+          for mult in (300.0, 1000.0) for rho in (0.9, 0.97)
+          for meth, pre in (('eigen', True), ('eigen', False),
+                            ('inverse', False))]
+    core.pmap(run, overflow_case, ov, chunk=1)
     run.c['states'] = run.c.get('evaluations', 0)
     run.c['transitions'] = run.c.get('evaluations', 0)
     run.c['distinct_nontrivial'] = len(run.distinct.get('nontrivial', ()))
@@ -350,8 +398,12 @@ def main(run: core.Run):
 
 
 def replay(run, data):
-    it = data['detail']['item']
     part = core.Part()
+    if 'overflow' in data['detail']:
+        overflow_case(part, tuple(data['detail']['overflow']))
+        run.merge(part.dump())
+        return
+    it = data['detail']['item']
     case(part, (tuple(it[0]), it[1], tuple(it[2]), it[3], it[4], it[5],
                 it[6]) + tuple(tuple(x) if isinstance(x, list) else x
                                for x in it[7:]))
